@@ -23,6 +23,9 @@ REQUIRED_THEOREMS = ["no_fault", "unhashable_rejected_unchanged", "verify_sound"
 if os.path.exists(os.path.join(vlib.LEAN_DIR, "Yarel", "Props", "SitesInventory.lean")):
     THEOREM_MODULES.append("Yarel.Props.SitesInventory")
     REQUIRED_THEOREMS.append("sites_accounted_run_time")
+# who writes the state the mechanism models are about: the set of write sites per group of fields, regenerated on every run (Props/StateWrites)
+THEOREM_MODULES.append("Yarel.Props.StateWrites")
+REQUIRED_THEOREMS += ['writers_of_exception_state']
 USES_GEN = True
 LEVEL = "proof"
 ASSUMPTIONS = [
